@@ -97,7 +97,7 @@ func functionsFor(prog *Program, cs *Contracts, prop string) []string {
 		if strings.HasPrefix(name, "ff:") || strings.HasPrefix(name, "if:") {
 			continue
 		}
-		if fc.Trusted {
+		if fc.Trusted || inlineOnly(fc) {
 			continue
 		}
 		use := false
